@@ -156,6 +156,10 @@ archive_write_ar_header(struct archive_write *a, struct archive_entry *entry)
 	append_fn = 0;
 	ar = (struct ar_w *)a->format_data;
 	ar->is_strtab = 0;
+	/* A refused entry writes nothing: leave nothing of the previous
+	 * member behind for archive_write_finish_entry() to act upon. */
+	ar->entry_bytes_remaining = 0;
+	ar->entry_padding = 0;
 	filename = NULL;
 	size = archive_entry_size(entry);
 
